@@ -141,7 +141,7 @@ Section Sim.
     fst (fromtar St1 rd1 fuel r1) = fst (fromtar St2 rd2 fuel r2)
     /\ RR (snd (fromtar St1 rd1 fuel r1)) (snd (fromtar St2 rd2 fuel r2)).
   Proof.
-    induction fuel as [|f IH]; intros r1 r2 H; simpl; [split; [reflexivity|assumption]|].
+    induction fuel as [|f IH]; intros r1 r2 H; cbn [fromtar]; [split; [reflexivity|assumption]|].
     rd_step 512 r1 r2 H.
     destruct (frombuf b) as [| | | | |h]; try (split; [reflexivity|assumption]).
     destruct ((h_type h =? T_GNULONGNAME) || (h_type h =? T_GNULONGLINK)).
@@ -149,8 +149,15 @@ Section Sim.
       specialize (IH _ _ Hq0). destruct IH as [IH1 IH2].
       destruct (fromtar St1 rd1 f q1) as [x1 s1], (fromtar St2 rd2 f q2) as [x2 s2]. simpl in *. subst x2.
       destruct x1 as [e| | |h' od no|]; try destruct e; simpl; split; try reflexivity; try assumption.
-    - destruct (is_pax_type (h_type h)); [split; [reflexivity|assumption]|].
-      destruct Hq as [Hp Hr]. simpl. rewrite Hp. split; [reflexivity|split; assumption].
+    - destruct (is_pax_type (h_type h)).
+      + destruct (h_type h =? 103); [split; [reflexivity|assumption]|].
+        rd_step (block (h_size h)) q q0 Hq.
+        destruct (parse_pax (S (length b0)) b0 0 []) as [recs|]; [|split; [reflexivity|assumption]].
+        specialize (IH _ _ Hq0). destruct IH as [IH1 IH2].
+        destruct (fromtar St1 rd1 f q1) as [x1 s1], (fromtar St2 rd2 f q2) as [x2 s2]. cbn [fst snd] in *. subst x2.
+        destruct x1 as [e| | |h' od no|]; try destruct e; try destruct (pax_sparse recs); cbn [fst snd];
+          split; try reflexivity; try assumption.
+      + destruct Hq as [Hp Hr]. simpl. rewrite Hp. split; [reflexivity|split; assumption].
   Qed.
 
   Lemma advance_sim : forall off r1 r2, RR r1 r2 ->
